@@ -43,7 +43,7 @@ func main() { Main("c04", runC04) }
 func runC04(seed uint64, n int, tier string, outDir string) []*Stats {
 	r := NewRng(seed)
 	st := NewStats("c04", seed)
-	cf := NewCoqFile("From V Require Import Common.Base C04.Parts C04.Mark C04.Harness.")
+	cf := NewCoqFile("From V Require Import Common.Base C04.Parts C04.Mark C04.Purity C04.Harness.")
 
 	tieGraphs(r, st, cf, n)
 	tieClassifier(r, st, cf, n)
